@@ -169,6 +169,7 @@ class Interp:
         self.max_steps = max_steps
         self.externals = {}
         self.call_depth = 0
+        self.keep_terms = False       # generic mode: keep terms as the code built them (no arithmetic normal forms)
 
     # -------------------------------------------------------------- obligations
     def ob(self, kind, label, goal):
@@ -183,12 +184,12 @@ class Interp:
     def norm(self, v, t: TInt):
         """normalise an integer value to type t (python int -> canonical range; z3 -> width t.bits)"""
         if is_sym(v):
-            v = z3.simplify(v)
-            if z3.is_bv_value(v):
-                v = v.as_long()
+            sv = z3.simplify(v)
+            if z3.is_bv_value(sv):
+                v = sv.as_long()
             else:
                 assert v.size() == t.bits, (v.size(), t)
-                return v
+                return v if self.keep_terms else sv
         v &= (1 << t.bits) - 1
         if t.signed and v >> (t.bits - 1):
             v -= 1 << t.bits
@@ -245,6 +246,9 @@ class Interp:
             if any(c is None or isinstance(c, tuple) for c in cells):
                 self.ob("ub", "read of uninitialised / non-integer memory in '%s'+%d" % (lv.region.name, lv.off), False)
                 raise StopRun("uninit")
+            whole = getattr(lv.region, "whole", {}).get((lv.off, n))
+            if whole is not None and len(whole[1]) == n and all(a is b for a, b in zip(whole[1], cells)):
+                return self.norm(whole[0], t)        # exactly the bytes of one earlier typed store: the stored term itself
             order = cells[::-1] if not self.big else cells          # most significant first
             if all(isinstance(c, int) for c in cells):
                 v = 0
@@ -282,6 +286,10 @@ class Interp:
             if self.big:
                 bs = bs[::-1]
             self.store_cells(lv.region, lv.off, bs)
+            if is_sym(v) and isinstance(lv.region, Region) and not is_sym(lv.off):
+                if not hasattr(lv.region, "whole"):
+                    lv.region.whole = {}
+                lv.region.whole[(lv.off, n)] = (v, list(lv.region.data[lv.off:lv.off + n]))
         elif isinstance(t, TPtr):
             if not isinstance(v, (Ptr, FuncPtr)):
                 raise CUnsupported("store of non-pointer %r into pointer" % (v,))
@@ -853,6 +861,9 @@ class Interp:
         c = self.rval(n["inner"][0])
         if is_sym(c):
             raise CUnsupported("symbolic switch")
+        return self.switch_value(n, c)
+
+    def switch_value(self, n, c):
         body = n["inner"][-1]
         items = body.get("inner", [])
 
